@@ -19,6 +19,7 @@ VARIABLES ws, rev
 
 vars == <<ws, rev>>
 
+NoData == 99                              \* marker in Sizes: the packet carries no payload entry
 IDS    == <<5, 2, 9, 0, 7>>                  \* sparse, unordered
 Slots  == {<<1, 0>>, <<1, 1>>, <<1, 3>>, <<2, 0>>}        \* first-packet sources <<capture, index>>
 Starts == {0, 1, 2, 5}                       \* seconds 0, 0, 1, 2
@@ -63,21 +64,19 @@ NextPkt ==
         IF ws = <<>>
         THEN /\ dt = 0
              /\ ws' = <<PStream(<<[t |-> 3, cap |-> 1, idx |-> 0, dir |-> dir]>>,
-                                IF sz < 0 THEN <<>> ELSE <<[pk |-> 1, sz |-> sz]>>)>>
+                                IF sz = NoData THEN <<>> ELSE <<[pk |-> 1, sz |-> sz]>>)>>
         ELSE LET n == Len(ws[1].pkts) IN
              /\ n < MaxPkts
              /\ ws' = <<[ws[1] EXCEPT !.pkts = Append(@, [t |-> ws[1].pkts[n].t + dt, cap |-> 1, idx |-> n, dir |-> dir]),
-                                      !.data = IF sz < 0 THEN @ ELSE Append(@, [pk |-> n + 1, sz |-> sz])]>>
+                                      !.data = IF sz = NoData THEN @ ELSE Append(@, [pk |-> n + 1, sz |-> sz])]>>
 
 Next == IF Mode = "pkts" THEN NextPkt ELSE NextStreams
 Spec == Init /\ [][Next]_vars
 
 (***************************************************************************)
-(* the property                                                            *)
+(* the property (all definitions take the writer W / file F as arguments   *)
+(* so that TLC evaluates the pipeline once per state, see Check)           *)
 (***************************************************************************)
-W0 == AddStreams(NewWriter, Input)
-F0 == Finalize(W0)
-
 \* the defect found on the unchanged tree (KNOWN_FINDINGS / proposed_fixes C01-1): streams
 \* that are not in the first host group of their family, or that refer to a host the
 \* byte-wise pop() left half-removed, read back wrong addresses.  Only these are exempted
@@ -91,21 +90,21 @@ HostFieldsOnly(a, b) ==   \* everything but the addresses agrees
     /\ "ok" \notin DOMAIN a
     /\ [a EXCEPT !.ch = b.ch, !.sh = b.sh] = b
 
-RoundTrip ==
-    \/ Exempt /\ ~OpenOK(F0) /\ \E i \in 1 .. Len(Input) : KnownHostGroupDefect(W0, i)    \* NewReader panics
-    \/ \A i \in 1 .. Len(Input) :
-        \/ RoundTripAt(F0, Input, i)
-        \/ /\ Exempt /\ KnownHostGroupDefect(W0, i)
-           /\ ("ok" \in DOMAIN Decode(F0, i - 1) \/ HostFieldsOnly(Decode(F0, i - 1), Abs(Input[i])))
-Lookups ==
-    /\ \A i \in 1 .. Len(Input) : LookupAt(F0, Input, i)
-    /\ \A id \in (-1 .. 11) \ StreamIDs(F0) : ByID(F0, id) = -1
+RoundTrip(W, F, Ss, D) ==
+    \/ Exempt /\ ~OpenOK(F) /\ \E i \in 1 .. Len(Ss) : KnownHostGroupDefect(W, i)    \* NewReader panics
+    \/ \A i \in 1 .. Len(Ss) :
+        \/ D[i] = Abs(Ss[i])
+        \/ /\ Exempt /\ KnownHostGroupDefect(W, i)
+           /\ ("ok" \in DOMAIN D[i] \/ HostFieldsOnly(D[i], Abs(Ss[i])))
+Lookups(F, Ss) ==
+    /\ \A i \in 1 .. Len(Ss) : LookupAt(F, Ss, i)
+    /\ \A id \in (-1 .. 11) \ StreamIDs(F) : ByID(F, id) = -1
     /\ \A cap \in 0 .. 3, idx \in 0 .. 6 :
-          (\A i \in 1 .. Len(Input) : <<cap, idx>> # <<Input[i].pkts[1].cap, Input[i].pkts[1].idx>>) => BySource(F0, cap, idx) = -1
-SortedLookups ==
-    /\ \A r \in 1 .. (Len(F0.streams) - 1) : F0.streams[F0.byFirst[r]].first <= F0.streams[F0.byFirst[r + 1]].first
-    /\ \A r \in 1 .. (Len(F0.streams) - 1) : F0.streams[F0.byLast[r]].last <= F0.streams[F0.byLast[r + 1]].last
-    /\ \A i \in 1 .. Len(F0.streams) : F0.streams[i].first >= 0 /\ F0.streams[i].last >= F0.streams[i].first
+          (\A i \in 1 .. Len(Ss) : <<cap, idx>> # <<Ss[i].pkts[1].cap, Ss[i].pkts[1].idx>>) => BySource(F, cap, idx) = -1
+SortedLookups(F) ==
+    /\ \A r \in 1 .. (Len(F.streams) - 1) : F.streams[F.byFirst[r]].first <= F.streams[F.byFirst[r + 1]].first
+    /\ \A r \in 1 .. (Len(F.streams) - 1) : F.streams[F.byLast[r]].last <= F.streams[F.byLast[r + 1]].last
+    /\ \A i \in 1 .. Len(F.streams) : F.streams[i].first >= 0 /\ F.streams[i].last >= F.streams[i].first
 
 (***************************************************************************)
 (* regimes                                                                 *)
@@ -127,7 +126,7 @@ StreamRegimes(W, S, i) ==
    \cup (IF \E d \in Range(S.data) : d.sz > MaxData /\ d.sz % MaxData = 0 THEN {"split-exact-multiple"} ELSE {})
    \cup (IF \E d \in Range(S.data) : d.sz = MaxData THEN {"exactly-max-datasize"} ELSE {})
    \cup (IF satAt # {} THEN {"skip-saturated"} ELSE {})
-   \cup (IF \E j \in satAt : rs[j].dsz = MaxData /\ j > 1 /\ rs[j - 1].dsz = MaxData /\ rs[j - 1].idx = rs[j].idx /\ rs[j - 1].imp = rs[j].imp
+   \cup (IF \E j \in satAt : rs[j].dsz > 0 /\ j > 1 /\ rs[j - 1].dsz = MaxData /\ rs[j - 1].idx = rs[j].idx /\ rs[j - 1].imp = rs[j].imp
            THEN {"split-then-saturated-skip"} ELSE {})
    \cup (IF \E j \in 1 .. n : rs[j].dsz = 0 /\ rs[j].skip > 0 /\ rs[j].skip < SkipSat THEN {"skip-from-empty-packet"} ELSE {})
    \cup (IF \E k \in 2 .. Len(S.pkts) : wrapAt(k) /\ hasData(k) /\ hasData(k - 1) THEN {"wrap-between-data-packets"} ELSE {})
@@ -153,13 +152,12 @@ StreamRegimes(W, S, i) ==
 \* the writer states after each AddStream (W_1 .. W_n)
 RECURSIVE Prefixes(_, _)
 Prefixes(W, Ss) == IF Ss = <<>> THEN <<>> ELSE LET W2 == AddStream(W, Head(Ss)) IN <<W2>> \o Prefixes(W2, Tail(Ss))
-FileRegimes ==
-    LET Ss == Input
-        n  == Len(Ss)
-        Ws == Prefixes(NewWriter, Ss)
+FileRegimes(Ss, Ws) ==
+    LET n  == Len(Ss)
         prev(i) == IF i = 1 THEN NewWriter ELSE Ws[i - 1]
-        pl(i) == Place(prev(i).groups, 1, HostBytes(Ss[i].fam, Ss[i].c), HostBytes(Ss[i].fam, Ss[i].s), 0)
-        W  == W0
+        pls == [i \in 1 .. n |-> Place(prev(i).groups, 1, HostBytes(Ss[i].fam, Ss[i].c), HostBytes(Ss[i].fam, Ss[i].s), 0)]
+        pl(i) == pls[i]
+        W  == Ws[n]
         fams == {FamOfSize(W.groups[g].size) : g \in 1 .. Len(W.groups)}
         ids == [i \in 1 .. n |-> Ss[i].id]
     IN  (IF \E i \in 1 .. n : FamOfSize(W.groups[W.streams[i].hg + 1].size) = "v4" /\ FamRank(W, W.streams[i].hg) > 0 THEN {"second-v4-hostgroup"} ELSE {})
@@ -189,13 +187,26 @@ FileRegimes ==
 
 \* emit the first EmitK inputs of every regime (per worker; the runner removes duplicates)
 Seen == TLCGet(1)
-Emit ==
-    Input = <<>> \/
-    LET rg == FileRegimes
-        fresh == {r \in rg : Cardinality({p \in Seen : p[1] = r}) < EmitK}
+Emit(Ss, rg) ==
+    LET fresh == {r \in rg : Cardinality({p \in Seen : p[1] = r}) < EmitK}
     IN fresh = {} \/
        /\ TLCSet(1, Seen \cup {<<r, Cardinality({p \in Seen : p[1] = r}) + 1>> : r \in fresh})
-       /\ PrintT("@@J" \o ToJson([vec |-> "c01", mode |-> Mode, regimes |-> rg, fresh |-> fresh, streams |-> Input]))
+       /\ PrintT("@@J" \o ToJson([vec |-> "c01", mode |-> Mode, regimes |-> rg, fresh |-> fresh, streams |-> Ss]))
+
+Fail(what) == PrintT("@@J" \o ToJson([mcfail |-> what, streams |-> Input])) /\ FALSE
+
+\* the single invariant: one evaluation of the pipeline per state
+Check ==
+    Input = <<>> \/
+    LET Ss == Input
+        Ws == Prefixes(NewWriter, Ss)
+        W  == Ws[Len(Ss)]
+        F  == Finalize(W)
+        D  == [i \in 1 .. Len(Ss) |-> Decode(F, i - 1)]
+    IN /\ RoundTrip(W, F, Ss, D) \/ Fail("RoundTrip")
+       /\ Lookups(F, Ss) \/ Fail("Lookups")
+       /\ SortedLookups(F) \/ Fail("SortedLookups")
+       /\ Emit(Ss, FileRegimes(Ss, Ws))
 
 ASSUME TLCSet(1, {})
 =============================================================================
